@@ -6,6 +6,7 @@ import RbV.Model.SampleBuild
 import RbV.Lemmas.SortedBridge
 import RbV.Thm.GenSrcBackwardSearch
 import RbV.Thm.GenSrcOcc
+import RbV.Thm.GenSrcFmAccess
 /-!
 # C05 — FM-index backward search returns exactly the pattern's occurrences
 
@@ -401,5 +402,34 @@ example : Gen.SrcBackwardSearch.backward_search (LF.lessRef (LF.bwtOf [3, 1, 4, 
     [1, 5] = Rs.Res.ok .Absent := by decide
 -- an empty BWT: `self.bwt().len() - 1` underflows, the Rust code panics
 example : Gen.SrcBackwardSearch.backward_search (fun _ => 0) (fun _ _ => 0) [] [1] = Rs.Res.panic := by decide
+
+/-! ### `Interval::occ` translated from the source text (genleft; `RbV/Gen/SrcFmAccess.lean`, proofs
+`RbV/Thm/GenSrcFmAccess.lean`).  `SA: SuffixArray` is an opaque type, `SuffixArray::get` the abstract, possibly panicking
+`saGet`; the hypothesis `hget` — `get(i) = Some(sa[i])` on the rows of the array — holds for the plain vector
+(`RawSuffixArray::get`) and is what `sampled_get_source_exact_all` (C03) proves of the translated `SampledSuffixArray::get`. -/
+
+/-- **`Interval::occ`, as written, returns exactly the suffix-array entries of its rows** — the list `ivMap sa lo hi` the
+property's `MapsTo` is stated over — without panic, for every interval inside the array -/
+theorem interval_occ_source_eq_model {σ : Type} (saGet : σ → Nat → Rs.Res (Option Nat)) (s : σ) (sa : List Nat)
+    (hget : ∀ i, i < sa.length → saGet s i = Rs.Res.ok (some (sa.getD i 0)))
+    (lo hi : Nat) (h : hi ≤ sa.length) :
+    Gen.SrcFmAccess.intervalOcc saGet { lower := lo, upper := hi } s = Rs.Res.ok (ivMap sa lo hi) :=
+  RbV.Thm.GenSrcFmAccess.intervalOcc_eq_model saGet s sa hget lo hi h
+
+/-- … and an interval that leaves the array panics (`.expect("Interval out of range of suffix array")`) -/
+theorem interval_occ_source_out_of_range {σ : Type} (saGet : σ → Nat → Rs.Res (Option Nat)) (s : σ) (lo hi : Nat)
+    (h : lo < hi) (hnone : saGet s lo = Rs.Res.ok none) :
+    Gen.SrcFmAccess.intervalOcc saGet { lower := lo, upper := hi } s = Rs.Res.panic :=
+  RbV.Thm.GenSrcFmAccess.intervalOcc_out_of_range saGet s lo hi h hnone
+
+-- GATTACA$: rows 5..7 of the suffix array through the translated function (plain vector as `SuffixArray`)
+example : Gen.SrcFmAccess.intervalOcc (fun (sa : List Nat) i => Rs.Res.ok sa[i]?) ⟨5, 7⟩ [7, 6, 4, 1, 5, 0, 3, 2]
+    = Rs.Res.ok [0, 3] := by decide
+example : Gen.SrcFmAccess.intervalOcc (fun (sa : List Nat) i => Rs.Res.ok sa[i]?) ⟨7, 9⟩ [7, 6, 4, 1, 5, 0, 3, 2]
+    = Rs.Res.panic := by decide
+example : Gen.SrcFmAccess.intervalOcc (fun (sa : List Nat) i => Rs.Res.ok sa[i]?) ⟨5, 7⟩ [7, 6, 4, 1, 5, 0, 3, 2]
+    = Rs.Res.ok (ivMap [7, 6, 4, 1, 5, 0, 3, 2] 5 7) :=
+  interval_occ_source_eq_model _ _ [7, 6, 4, 1, 5, 0, 3, 2]
+    (fun i hi => by rw [List.getD_eq_getElem?_getD, List.getElem?_eq_getElem hi]; rfl) 5 7 (by decide)
 
 end RbV.Thm.C05
